@@ -174,7 +174,8 @@ class PoolProp:
                    none_inputs=rng.random() < 0.25, body_raises=rng.random() < 0.2,
                    impatient=(tier != "cover" and rng.random() < 0.15), input_kind=rng.randrange(5),
                    end_fault=([rng.randrange(n_workers)] + ([n_workers] if factory else [])) if rng.random() < 0.12 else (),
-                   float_chunks=rng.random() < 0.15, equal_workers=rng.random() < 0.15)
+                   float_chunks=rng.random() < 0.15, equal_workers=rng.random() < 0.15,
+                   join_timeout=(tier != "cover" and rng.random() < 0.12))
 
     # ---- transition coverage: every reachable transition of the model for small configurations (harness/cover.py) -------
     cover_limit = 60000
